@@ -34,7 +34,16 @@ def contents():
     pa = C.chain_lines("1HPX", "A", 20, 12)       # Asp25 / Asp25' of the dimer: a non-covalently coupled pair
     pb = C.chain_lines("1HPX", "B", 20, 12)
     c = C.join(pa + [C.TER] + pb + [C.TER])
-    return {"a": a, "u": u, "m": m, "c": c}
+    # "b": content "a" with one side chain displaced - another structure in a file of exactly the same size
+    bl = []
+    for ln in a.splitlines():
+        if C.is_atom(ln) and ln[17:20] in ("ASP", "GLU", "LYS") and ln[12:16].strip() not in ("N", "CA", "C", "O", "CB"):
+            r = pdbio.parse_line(ln)
+            ln = pdbio.set_xyz(ln, r.x + 900, r.y - 700, r.z + 400)
+        bl.append(ln)
+    b = "\n".join(bl) + "\n"
+    assert len(b) == len(a) and b != a
+    return {"a": a, "u": u, "m": m, "c": c, "b": b}
 
 
 def options_for(cid, o, texts):
@@ -101,6 +110,11 @@ def run(ctx):
         if others:
             c2, o2 = others[(ctx.seed + len(systematic)) % len(others)]
             systematic.append([{"c": c, "o": o, "via": "single"}, {"c": c2, "o": o2, "via": "single"}, {"c": c, "o": o, "via": "single"}])
+    # one path reused for successive contents of equal size with a preserved time stamp
+    for x, y in (("a", "b"), ("b", "a")):
+        systematic.append([{"c": x, "o": "default", "via": "single", "fname": "frame.pdb", "mode": "path"},
+                           {"c": y, "o": "default", "via": "single", "fname": "frame.pdb", "mode": "path"},
+                           {"c": x, "o": "default", "via": "single", "fname": "frame.pdb", "mode": "path"}])
     chosen = systematic + chosen
     texts = contents()
     files = {"custom.cfg": custom_cfg()}
@@ -112,8 +126,9 @@ def run(ctx):
         jobs.append(("ref", {"inputs": texts, "files": files, "steps": [step], "hashperm": None, "alloc": 0}, 0))
         jobs.append(("reftext", {"inputs": texts, "files": files, "steps": [dict(step, via="main1")], "hashperm": None, "alloc": 0}, 0))
     for k, s in enumerate(chosen):
-        steps = [{"c": x["c"], "o": options_for(x["c"], x["o"], texts), "via": x["via"],
-                  "mode": rng.choice(["path", "stream"])} for x in s]
+        steps = [dict({"c": x["c"], "o": options_for(x["c"], x["o"], texts), "via": x["via"],
+                       "mode": x.get("mode") or rng.choice(["path", "stream"])}, **({"fname": x["fname"]} if x.get("fname") else {}))
+                 for x in s]
         cwdname = rng.choice(["A", "B/sub", "D"])
         hfiles = dict(files)
         if cwdname == "D":
